@@ -587,6 +587,9 @@ func (fr *Frame) modVarsOfBlocks(blocks map[*ssa.BasicBlock]bool) *ModSet {
 			for b := range blocks {
 				for _, in := range b.Instrs {
 					if c, ok := in.(ssa.CallInstruction); ok {
+						if bi, ok := c.Common().Value.(*ssa.Builtin); ok && gs.Callee == bi.Name() {
+							ms.Ghost[gs.Var] = true // `set g = e @ before N append`
+						}
 						if cal := c.Common().StaticCallee(); cal != nil {
 							short := fr.vc.e.shortName(cal.String())
 							if gs.Callee == shortFn(short) || gs.Callee == short || (strings.HasSuffix(gs.Callee, "*") && strings.HasPrefix(shortFn(short), strings.TrimSuffix(gs.Callee, "*"))) {
